@@ -1118,4 +1118,52 @@ theorem C18_roundtrip_example :
         = .ok [2, 6, 3] := by
   exact ⟨_, rfl, by decide⟩
 
+/-! ## one object used several times; seeds -/
+
+/-- **history independence of the read-back**: whatever sequence of individuals one
+    `PosteriorPredictiveModel` object is asked for (repetitions, `None`, unknown IDs, any length),
+    the k-th call reads exactly the columns a fresh object would read for the k-th individual -/
+theorem C18_readback_history_independent (ds : Dict) (ids modelNames : List String)
+    (paramMap : List (String × String)) (inds : List (Option String)) (cache : Option (List Nat)) :
+    readbackSeq false ds ids modelNames paramMap inds cache
+      = inds.map (readback ds ids modelNames paramMap) := by
+  induction inds generalizing cache with
+  | nil => rfl
+  | cons i is ih =>
+    unfold readbackSeq
+    simp only [Bool.false_eq_true, if_false, List.map_cons]
+    rw [ih]
+
+/-- an un-keyed cache of the first call's matrix: the second call, for individual `b`, still reads
+    individual `a`'s columns -/
+theorem C18_readback_cache_counterexample :
+    let names := hierNames ["psi0", "Sigma"] ["Mean Dim. 1", "Std. Dim. 1", "Pooled Dim. 2"] 2
+    let top := ["Mean Dim. 1", "Std. Dim. 1", "Pooled Dim. 2"]
+    ∃ ds, formatChains names top 2 = .ok ds ∧
+      readbackSeq true ds ["a", "b"] ["psi0", "psi1", "Sigma"] [("psi1", "Pooled Dim. 2")]
+        [some "a", some "b"] none = [.ok [0, 6, 1], .ok [0, 6, 1]] ∧
+      readbackSeq false ds ["a", "b"] ["psi0", "psi1", "Sigma"] [("psi1", "Pooled Dim. 2")]
+        [some "a", some "b"] none = [.ok [0, 6, 1], .ok [2, 6, 3]] := by
+  exact ⟨_, rfl, by decide, by decide⟩
+
+/-- **reproducible from the seed**: for every integer seed — zero included — the prior draws come from
+    the generator seeded with it, whatever state the global generator was in, and the population
+    draws from the generator seeded with `seed + 1` -/
+theorem C18_initial_reproducible (s g g' : Nat) :
+    priorStream false (some s) g = .seeded s ∧
+    priorStream false (some s) g = priorStream false (some s) g' ∧
+    populationStream (some s) = some (s + 1) :=
+  ⟨rfl, rfl, rfl⟩
+
+/-- `if seed:` instead of an unconditional reseed: with `seed = 0` the draws depend on the state the
+    global generator happens to be in (every other seed is unaffected) -/
+theorem C18_seed_zero_counterexample :
+    priorStream true (some 0) 1 ≠ priorStream true (some 0) 2 ∧
+    (∀ s g, s ≠ 0 → priorStream true (some s) g = .seeded s) := by
+  refine ⟨by decide, fun s g hs => ?_⟩
+  unfold priorStream
+  have : (s == 0) = false := by simpa using hs
+  simp [this]
+
+
 end ChiModel.Inference
